@@ -47,7 +47,7 @@ class Repartition(Expr):
             or self.partition_size is not None
         ):
             x = self.optimize(fuse=False)
-            return x._divisions()
+            return x.divisions
         return self.new_divisions
 
     @property
